@@ -60,7 +60,7 @@ PROPS["C04"]["streams"].append(EPOCH)
 PROPS["C04"]["fields"] = r"^powercap\.|" + EPOCH_FIELDS
 
 KEYS = dict(name="keys", quick=(6, 700), thorough=(28, 4000))
-HANDSHAKE = dict(name="handshake", quick=(6, 700), thorough=(28, 4000))
+HANDSHAKE = dict(name="handshake", quick=(8, 900), thorough=(28, 4000))
 KA_FIELDS = r"^(assign|optin|optout|newval|rmval)\.|^c\d+\.(ka|byaddr|prune|optin)"
 PROPS.update({
     "C05": dict(streams=[KEYS, LIFE], rule=PROV_RULE + "; keys stream: 4+2 validators, 5 extra keys plus all provider keys, so collisions, re-assignments (also back to the provider key), validator creation/removal and pruning deadlines are frequent",
